@@ -1,9 +1,11 @@
 #!/bin/sh
-# usage: runtlc.sh <MC module name> [extra tlc args]; copies spec to scratch and runs TLC
+# usage: runtlc.sh <MC module name> [-cfg <cfg file in spec/mc>] [extra tlc args]; copies spec to scratch and runs TLC
 m=$1; shift
+cfg=$m.cfg
+if [ "$1" = "-cfg" ]; then cfg=$2; shift; shift; fi
 d=$(mktemp -d /tmp/tlc.XXXXXX)
-cp /verif/spec/*.tla /verif/spec/mc/$m.tla /verif/spec/mc/$m.cfg $d/
-cd $d && tlc -metadir $d/meta -noGenerateSpecTE -config $m.cfg "$@" $m.tla 2>&1
+cp /verif/spec/*.tla /verif/spec/mc/*.tla /verif/spec/mc/*.cfg $d/
+cd $d && tlc -metadir $d/meta -noGenerateSpecTE -config $cfg "$@" $m.tla 2>&1
 rc=$?
 rm -rf $d
 exit $rc
